@@ -160,6 +160,9 @@ class Body:
         except Exception: return 0
     @property
     def pkg(self): return self.unit.pkg
+    def ty(self, local):
+        x = self.locals[local]
+        return x if isinstance(x, str) else x.get("ty", "")
     def name_of(self, local):
         """source name(s) of a local (whole-local debug entries only)"""
         return [n for n, p in self.debug if p is not None and p.l == local and not p.p]
